@@ -120,6 +120,9 @@ def image(cx, V, U):
 
 
 class SetMutator(Contract):
+    # the concrete oracle asked when the function leaves the verifier's subset (rewritten loop, new construct): random
+    # operations against the builtin model on validated items, every clause of the statement evaluated on the real code
+    undecided_probe = dict(harness="containers", family="set_probe", trials=4000)
     path = PATH
     properties = ("C07", "C04", "C19")
     cls = "TraitSet"
